@@ -164,7 +164,7 @@ def generate(seed, tier="quick"):
     mode = sch.choice(["pct", "pct", "pct", "uniform", "uniform", "uniform", "uniform", "bursty", "bursty", "bursty"])
     nchg = sch.choice([0, 1, 2, 3])
     sched = {"mode": mode, "pct_changes": sorted(sch.randrange(1, 120) for _ in range(nchg)),
-             "stalls": [[sch.randrange(0, 200), sch.randrange(0, 5), sch.choice([5, 20, 80])] for _ in range(sch.choice([0, 0, 1, 2]))]}
+             "stalls": [[sch.randrange(0, 80), sch.randrange(0, 5), sch.choice([5, 20, 80])] for _ in range(sch.choice([0, 1, 1, 2, 3]))]}
     return {"engine": "poolsim", "property": PROP, "seed": seed, "tier": tier, "world": world, "parent": parent, "ops": ops, "sched": sched}
 
 
